@@ -1,4 +1,8 @@
 #include <solver/quasi.h>
+#ifdef NANO_VERIF
+#include <nano/verif.h>
+#include <vector>
+#endif
 
 using namespace nano;
 
@@ -138,7 +142,25 @@ solver_state_t solver_quasi_t::do_minimize(const function_t& function, const vec
         first_iteration = false;
 
         // update approximation of the Hessian
+#ifdef NANO_VERIF
+        const matrix_t verif_H = H;
+#endif
         update(pstate, cstate, H);
+#ifdef NANO_VERIF
+        {
+            const auto            n  = function.size();
+            const vector_t        dx = cstate.x() - pstate.x();
+            const vector_t        dg = cstate.gx() - pstate.gx();
+            std::vector<double>   values;
+            values.reserve(static_cast<size_t>(1 + 2 * n + 2 * n * n));
+            values.push_back(static_cast<double>(n));
+            values.insert(values.end(), dx.data(), dx.data() + n);
+            values.insert(values.end(), dg.data(), dg.data() + n);
+            values.insert(values.end(), verif_H.data(), verif_H.data() + n * n);
+            values.insert(values.end(), H.data(), H.data() + n * n);
+            ::nano::verif::event_values(::nano::verif::ev_quasi_update, this, values.data(), static_cast<int>(values.size()));
+        }
+#endif
     }
 
     return cstate.valid() ? cstate : pstate;
